@@ -52,6 +52,23 @@ Theorem C11_codec :
 Proof. exact C11_codec_main. Qed.
 Print Assumptions C11_codec.
 
+(* (e) The converse directions.  A byte string in the current format (version byte 1, every byte
+   below 256) that decodes re-encodes to itself - the format stores nothing beyond the decoded
+   fields - and its decoded fields are int64 values; records of different states differ. *)
+Theorem C11_codec_inverse :
+  (forall gob b a, bytes_ok b -> hd 0%N b = 1%N -> decode_att gob b = Some a ->
+     encode_att a = b /\ i64 (a_src a) /\ i64 (a_tgt a)) /\
+  (forall gob b s, bytes_ok b -> hd 0%N b = 1%N -> decode_prop gob b = Some s -> encode_prop s = b) /\
+  (forall a1 a2, i64 (a_src a1) -> i64 (a_tgt a1) -> i64 (a_src a2) -> i64 (a_tgt a2) ->
+     encode_att a1 = encode_att a2 -> a1 = a2) /\
+  (forall s1 s2, i64 s1 -> i64 s2 -> encode_prop s1 = encode_prop s2 -> s1 = s2).
+Proof. exact C11_codec_inverse_main. Qed.
+Print Assumptions C11_codec_inverse.
+
+Example C11_codec_inverse_example :
+  bytes_ok (encode_att {| a_src := -1; a_tgt := 7 |}) /\ hd 0%N (encode_att {| a_src := -1; a_tgt := 7 |}) = 1%N.
+Proof. exact C11_codec_inverse_example_proof. Qed.
+
 Example C11_example :
   Forall op_wf [OAttest ex_cl (by_key 1) (ex_att 0 1 1) no_ofault; OPropose ex_cl (by_key 1) (ex_prop 7 1) no_ofault] /\
   export_view (fst (run (ex_cfg true) empty_store
